@@ -243,6 +243,8 @@ def runLine (st : DState) (j : Json) : DState × Option Json :=
   | "browser" => ({ st with b := jN j "b" }, none)
   | "inst" => ({ st with i := jN j "i" }, none)
   | "snap" => ({ st with snaps := st.snaps.push (tabOf st st.b) }, none)
+  | "jarreset" =>   -- the current browser's whole jar goes back to a snapshot (the harness restored it)
+    ({ st with jars := (st.b, (st.snaps[jN j "snap"]?).getD []) :: st.jars.filter (·.1 != st.b) }, none)
   | "jar" =>
     match parseName (jS j "name") with
     | none => (st, none)
